@@ -79,11 +79,12 @@ class LockRegions:
     # lexical regions ----------------------------------------------------
     def lexical(self, func):
         """{id(ast stmt or expr root): frozenset(lock ids)} for statements of func."""
-        r = self._lex.get(func.qual)
+        r = getattr(func, "_lex_tbl", None)
         if r is None:
             r = {}
             self._walk(func, func.node.body, frozenset(), r)
-            self._lex[func.qual] = r
+            self._flow(func, r)
+            func._lex_tbl = r
         return r
 
     def _is_call(self, func, e, meth):
@@ -99,10 +100,9 @@ class LockRegions:
         return False
 
     def _walk(self, func, body, held, out):
-        i = 0
-        body = list(body)
-        while i < len(body):
-            st = body[i]
+        """`with L:` regions are lexical; acquire()/release() calls are handled
+        by the flow analysis below (any statement shape)."""
+        for st in body:
             out[id(st)] = held
             if isinstance(st, (ast.With, ast.AsyncWith)):
                 h = set(held)
@@ -111,42 +111,81 @@ class LockRegions:
                     if lid:
                         h.add(lid)
                 self._walk(func, st.body, frozenset(h), out)
-            elif isinstance(st, ast.If):
-                lid = self._is_call(func, st.test, "acquire")
-                if lid and len(st.body) >= 1 and isinstance(st.body[0], ast.Try) and self._releases(func, st.body[0].finalbody, lid):
-                    # if L.acquire(False): try: ... finally: L.release()
-                    t = st.body[0]
-                    out[id(t)] = held
-                    self._walk(func, t.body, frozenset(held | {lid}), out)
-                    for h in t.handlers:
-                        self._walk(func, h.body, frozenset(held | {lid}), out)
-                    self._walk(func, t.orelse, frozenset(held | {lid}), out)
-                    self._walk(func, t.finalbody, held, out)
-                    self._walk(func, st.body[1:], held, out)
-                else:
-                    self._walk(func, st.body, held, out)
-                self._walk(func, st.orelse, held, out)
-            elif isinstance(st, ast.Expr) and self._is_call(func, st.value, "acquire") and i + 1 < len(body) \
-                    and isinstance(body[i + 1], ast.Try) and self._releases(func, body[i + 1].finalbody, self._is_call(func, st.value, "acquire")):
-                lid = self._is_call(func, st.value, "acquire")
-                t = body[i + 1]
-                out[id(t)] = held
-                self._walk(func, t.body, frozenset(held | {lid}), out)
-                for h in t.handlers:
-                    self._walk(func, h.body, frozenset(held | {lid}), out)
-                self._walk(func, t.orelse, frozenset(held | {lid}), out)
-                self._walk(func, t.finalbody, held, out)
-                i += 1
-            elif isinstance(st, (ast.For, ast.AsyncFor, ast.While)):
-                self._walk(func, st.body, held, out)
-                self._walk(func, st.orelse, held, out)
-            elif isinstance(st, ast.Try):
-                self._walk(func, st.body, held, out)
-                for h in st.handlers:
-                    self._walk(func, h.body, held, out)
-                self._walk(func, st.orelse, held, out)
-                self._walk(func, st.finalbody, held, out)
-            i += 1
+            elif isinstance(st, (ast.FunctionDef, ast.AsyncFunctionDef, ast.ClassDef)):
+                continue
+            else:
+                for fld in ("body", "orelse", "finalbody"):
+                    sub = getattr(st, fld, None)
+                    if isinstance(sub, list) and sub and isinstance(sub[0], ast.stmt):
+                        self._walk(func, sub, held, out)
+                if isinstance(st, ast.Try):
+                    for h in st.handlers:
+                        self._walk(func, h.body, held, out)
+        return out
+
+    @staticmethod
+    def _blocking(call):
+        """acquire() / acquire(True) / acquire(blocking=True): returns only with the lock."""
+        if call.keywords:
+            return all(k.arg == "blocking" and isinstance(k.value, ast.Constant) and k.value.value is True
+                       for k in call.keywords) and not call.args
+        if not call.args:
+            return True
+        return len(call.args) == 1 and isinstance(call.args[0], ast.Constant) and call.args[0].value is True
+
+    def _flow(self, func, out):
+        """Must-hold dataflow over the CFG for explicit acquire()/release():
+        a lock is held after a blocking `L.acquire()` statement or on the true
+        branch of a test `L.acquire(...)`, until `L.release()`; at joins the
+        intersection.  Adds the result to the per-statement table `out`."""
+        has = False
+        for n in ast.walk(func.node):
+            if isinstance(n, ast.Call) and isinstance(n.func, ast.Attribute) and n.func.attr == "acquire":
+                has = True
+                break
+        if not has:
+            return
+        from .cfg import cfg_of
+        g = cfg_of(func)
+        IN = {g.entry.id: frozenset()}
+        work = [g.entry]
+
+        def transfer(n, label):
+            h = IN[n.id]
+            a = n.ast
+            if n.kind == "stmt" and isinstance(a, ast.Expr):
+                lid = self._is_call(func, a.value, "acquire")
+                if lid and label != "exc" and self._blocking(a.value):
+                    h = h | {lid}
+                lid = self._is_call(func, a.value, "release")
+                if lid:
+                    h = h - {lid}
+            elif n.kind == "branch" and n.polarity is True:
+                lid = self._is_call(func, a, "acquire")
+                if lid:
+                    h = h | {lid}
+            return frozenset(h)
+
+        while work:
+            n = work.pop()
+            for (s, label) in n.succ:
+                h = transfer(n, label)
+                old = IN.get(s.id)
+                new = h if old is None else (old & h)
+                if new != old:
+                    IN[s.id] = new
+                    work.append(s)
+        per = {}
+        for n in g.nodes:
+            if n.id not in IN or n.kind in ("entry", "exit", "raise_exit", "join", "dispatch", "handler"):
+                continue
+            st = n.stmt if getattr(n, "stmt", None) is not None else n.ast
+            if not isinstance(st, ast.stmt):
+                continue
+            per[id(st)] = IN[n.id] if id(st) not in per else (per[id(st)] & IN[n.id])
+        for k, h in per.items():
+            if h:
+                out[k] = frozenset(out.get(k, frozenset()) | h)
 
     def held_lex(self, func, stmt):
         return self.lexical(func).get(id(stmt), frozenset())
